@@ -225,10 +225,11 @@ class FrameQueueFrag(FrameQueue):
                 and frame.header.to_node == self._frags.header.to_node
                 and frame.header.frame_id == self._frags.header.frame_id
             ):
-                if (
-                    self._frags.header.reserved - 1 != frame.header.reserved
-                    and frame.header.message_type != MSG_FRAG_LAST
-                ):
+                if frame.header.message_type == MSG_FRAG_LAST:
+                    # the last fragment must follow the fragment numbered 2 (or 1)
+                    if not 1 <= self._frags.header.reserved <= 2:
+                        return False
+                elif self._frags.header.reserved - 1 != frame.header.reserved:
                     # print("dropping non sequential fragment")
                     return False
                 self._frags.header.unpack(frame.header.pack())
@@ -238,7 +239,9 @@ class FrameQueueFrag(FrameQueue):
                         # External data needs to be propagated back to update()
                         frame.header.message_type = NETWORK_EXT_DATA  # by reference
                     self._frags.header.message_type = frame.header.reserved
-                    return super().enqueue(self._frags)
+                    result = super().enqueue(self._frags)
+                    self._frags.header.reserved = 0  # cache is spent; nothing can follow
+                    return result
                 return True
             # print("dropping fragment due to missing 1st fragment")
             return False
